@@ -2,8 +2,10 @@
 """Regenerate MANIFEST.json from checkcfg.json + manifest_text.json (per-property wording)."""
 import json, os, subprocess
 ROOT = os.path.dirname(os.path.dirname(os.path.abspath(__file__)))
-cfg = json.load(open(os.path.join(ROOT, "checkcfg.json")))
-txt = json.load(open(os.path.join(ROOT, "manifest_text.json")))
+import glob
+cfg = {"properties": {os.path.basename(f)[:-5]: json.load(open(f)) for f in glob.glob(os.path.join(ROOT, "props", "C*.json"))}}
+txt = cfg["properties"]
+na_txt = json.load(open(os.path.join(ROOT, "props", "not_applicable.json"))) if os.path.exists(os.path.join(ROOT, "props", "not_applicable.json")) else {}
 props = [json.loads(l) for l in open(os.path.join(ROOT, "properties.jsonl"))]
 fix_commits = subprocess.run(["git", "-C", "/repo", "log", "--format=%h %s", "--grep=^fix:"], stdout=subprocess.PIPE, text=True).stdout.strip().splitlines()
 checks, na = [], []
@@ -22,7 +24,7 @@ for p in props:
             level_note=t["level_note"],
             technique=t.get("technique", "machine-checked proof in Coq 8.16 over a Gallina model; model tied to /repo by regenerated translation and/or in-Coq correspondence check")))
     else:
-        na.append(dict(property_id=pid, reason=txt.get(pid, {}).get("na_reason", "check not built yet; see DESIGN.md section 4 for the plan")))
+        na.append(dict(property_id=pid, reason=na_txt.get(pid, "check not built yet; see DESIGN.md section 4 for the plan")))
 m = dict(version=1,
          setup_cmd="./check --setup",
          hooks=dict(guard="ORQUESTRA_QUANTUM_VERIF", enable="no source hooks are needed; checks run /repo/src directly with ORQUESTRA_QUANTUM_VERIF=1 set (unused by the library)",
@@ -30,7 +32,7 @@ m = dict(version=1,
          engines=[dict(name="coq-model+correspondence", path="/verif/check", serves_properties=[c["property_id"] for c in checks],
                        kind_free_text="Coq 8.16.1 development under /verif/coq (models, proofs, Props/Cxx.v), translators under /verif/tr regenerating Gen/*.v from /repo on every run, Python harnesses under /verif/harness writing implementation outputs as Coq case files compared by vm_compute inside coqc")],
          checks=checks,
-         notes="Repairs of genuine defects are the commits in /repo whose message starts with 'fix:' (" + str(len(fix_commits)) + "); they and the findings kept as known are listed in /verif/known_findings.json and DESIGN.md section 5.",
+         notes="Repairs of genuine defects are the commits in /repo whose message starts with 'fix:' (" + str(len(fix_commits)) + "); they and the findings kept as known are listed in /verif/findings/*.json and DESIGN.md section 5.",
          not_applicable=na)
 json.dump(m, open(os.path.join(ROOT, "MANIFEST.json"), "w"), indent=1)
 print("MANIFEST.json:", len(checks), "checks,", len(na), "not claimed")
